@@ -39,6 +39,7 @@ fn values() -> Vec<QSpec> {
         q("1000", Value::Number(n(1000.0))),
         q("0.001", Value::Number(n(0.001))),
         q("454", Value::Number(n(454.0))),
+        q("3000000000.5", Value::Number(n(3000000000.5))),
         q("some", Value::Text("some".into())),
         q("a few big", Value::Text("a few big".into())),
     ]
@@ -302,7 +303,8 @@ fn check(env: &Env, pi: usize, spec: &RecipeSpec, local: &mut Local) -> Vec<Viol
                 // ranges need the extension; without it the text is kept: only compare when the parser read a number
                 let Some(got) = val else { fail!(1.0, "default scaling drops a quantity", "component {kind}{idx}") };
                 let comparable = !is_canonical || !matches!(want, Value::Range { .. });
-                if comparable && !matches!(got, Value::Text(_)) && got != want {
+                // representation included: a written fraction must stay a fraction
+                if comparable && !matches!(got, Value::Text(_)) && format!("{got:?}") != format!("{want:?}") {
                     fail!(1.0, "default scaling does not return the written value", "component {kind}{idx}: written {:?}, returned {got:?}", env.vals[v].text);
                 }
                 if !matches!(got, Value::Text(_)) && *kind != 'c' && unit.unwrap_or("") != c.unit {
@@ -454,7 +456,7 @@ fn specs(tier: Tier, vals: &[QSpec]) -> Vec<RecipeSpec> {
                             comps: vec![
                                 CompSpec { kind: 'i', value: Some(val), unit, lock },
                                 CompSpec { kind: 'c', value: Some(val2), unit: "", lock: false },
-                                CompSpec { kind: 't', value: Some(val2.min(12)), unit: "min", lock: false },
+                                CompSpec { kind: 't', value: Some(val2.min(11)), unit: "min", lock: false },
                                 CompSpec { kind: 'i', value: Some(val2), unit: "g", lock: !lock },
                                 CompSpec { kind: 'c', value: None, unit: "", lock: false },
                             ],
